@@ -87,16 +87,42 @@ func checkC17(c *Ctx) {
 			r.Unknown("R17.*", name, "unexpected result count")
 			return
 		}
+		// the mutex is released on every exit (the next call must be able to enter)
+		if k := len(p.Events); k > 0 {
+			final := ls[k-1].clone()
+			if last := p.Events[k-1]; last.Kind == pw.EvLock && last.Path == mu {
+				if last.Op == "Unlock" {
+					final[mu]--
+				} else {
+					final[mu]++
+				}
+			}
+			if final.Has(mu, false) {
+				r.Bad("R17.1", name, "mutex-not-released", c.Pos(p.RetPos), "Invalidate returns with the Invalidator's mutex held: every later call blocks for ever", shortTrace(p))
+			}
+		}
+		var cbField *pw.Val
+		for _, ev := range p.Events {
+			if ev.Kind == pw.EvFieldRead && ev.Field != nil && ev.Field.Name() == "Callbacks" && cbField == nil {
+				cbField = ev.Value
+			}
+		}
 		ret := p.Ret[0]
 		retNil, _ := p.NilFact(ret)
 		switch {
 		case isConstNamed(ret, "ErrNothingToInvalidate"):
 			nEmpty++
+			if cbField == nil || nilTri(p, cbField) != triTrue {
+				r.Bad("R17.4", name, "empty-error-with-callbacks", c.Pos(p.RetPos), "ErrNothingToInvalidate is returned on a path that does not establish that no callbacks are registered", shortTrace(p))
+			}
 			if len(cbCalls) != 0 || lastRunWrite >= 0 {
 				r.Bad("R17.4", name, "empty-does-something", c.Pos(p.RetPos), "ErrNothingToInvalidate path calls callbacks or consumes the interval", shortTrace(p))
 			}
 		case retNil:
 			nAccept++
+			if cbField == nil || nilTri(p, cbField) != triFalse {
+				r.Bad("R17.4", name, "accept-without-callbacks-test", c.Pos(p.RetPos), "a call is accepted (nil) on a path that does not establish that callbacks are registered: with none it must report ErrNothingToInvalidate", shortTrace(p))
+			}
 			// R17.2 accept ⇒ not (since < skip)
 			if since == nil || skip == nil {
 				r.Bad("R17.2", name, "accept-without-test", c.Pos(p.RetPos), "a call is accepted without comparing time.Since(lastRun) with SkipInterval", shortTrace(p))
